@@ -1,5 +1,5 @@
 """C20 - real-time pacing never runs ahead of the wall clock and alters no result"""
-from . import kernel, whomay
+from . import kernel, whomay, deps
 
 def check(ctx):
     kernel.run_tables(ctx, 'C20', [
@@ -7,6 +7,7 @@ def check(ctx):
         ('RealtimeEnvironment', 'factor'), ('RealtimeEnvironment', 'strict'),
     ])
     whomay.rt_overrides(ctx, 'C20')
+    deps.kernel(ctx, 'C20', realtime=True)
     return ('Static: RealtimeEnvironment.step compared with the reference table (due = real_start + (t - env_start) * '
             'factor; strict error iff monotonic() - due > factor, before any sleep; sleep re-checked in a loop until '
             'due - monotonic() <= 0; exactly one Environment.step afterwards), sync/__init__ write only the origins, the '
